@@ -207,6 +207,7 @@ package keeper
 
 //@ func msgServer.ClaimStream(goCtx, msg) (resp, err)
 //@   props C10 C11 C12 C13
+//@   nopanic
 //@   requires STR_WF(str_store) && STR_RATE(str_store) && STR_TIME(str_store, UnixNs(blockTime(goCtx))) && strParamsSet(str_store) && BANK_OK(bank_bal)
 //@   requires STR_ESCROW(str_store, bank_bal, bytesval(modAddr("stream"))) && STR_NOESC(str_store, bytesval(modAddr("stream")))
 //@   requires !isnil(strParams(str_store).ValidatorFee) && 0 <= dval(strParams(str_store).ValidatorFee) && dval(strParams(str_store).ValidatorFee) <= ONE
@@ -229,6 +230,7 @@ package keeper
 
 //@ func msgServer.CreateStream(goCtx, msg) (resp, err)
 //@   props C10 C11 C12 C13
+//@   nopanic
 //@   requires STR_WF(str_store) && STR_RATE(str_store) && STR_TIME(str_store, UnixNs(blockTime(goCtx))) && strParamsSet(str_store) && BANK_OK(bank_bal)
 //@   requires STR_ESCROW(str_store, bank_bal, bytesval(modAddr("stream"))) && STR_NOESC(str_store, bytesval(modAddr("stream")))
 //@   requires !isnil(strParams(str_store).ValidatorFee) && 0 <= dval(strParams(str_store).ValidatorFee) && dval(strParams(str_store).ValidatorFee) <= ONE
@@ -250,6 +252,7 @@ package keeper
 
 //@ func msgServer.TopUpDeposit(goCtx, msg) (resp, err)
 //@   props C10 C11 C12 C13
+//@   nopanic
 //@   requires STR_WF(str_store) && STR_RATE(str_store) && STR_TIME(str_store, UnixNs(blockTime(goCtx))) && strParamsSet(str_store) && BANK_OK(bank_bal)
 //@   requires STR_ESCROW(str_store, bank_bal, bytesval(modAddr("stream"))) && STR_NOESC(str_store, bytesval(modAddr("stream")))
 //@   requires !isnil(strParams(str_store).ValidatorFee) && 0 <= dval(strParams(str_store).ValidatorFee) && dval(strParams(str_store).ValidatorFee) <= ONE
@@ -274,6 +277,7 @@ package keeper
 
 //@ func msgServer.UpdateFlowRate(goCtx, msg) (resp, err)
 //@   props C10 C11 C12 C13
+//@   nopanic
 //@   requires STR_WF(str_store) && STR_RATE(str_store) && STR_TIME(str_store, UnixNs(blockTime(goCtx))) && strParamsSet(str_store) && BANK_OK(bank_bal)
 //@   requires STR_ESCROW(str_store, bank_bal, bytesval(modAddr("stream"))) && STR_NOESC(str_store, bytesval(modAddr("stream")))
 //@   requires !isnil(strParams(str_store).ValidatorFee) && 0 <= dval(strParams(str_store).ValidatorFee) && dval(strParams(str_store).ValidatorFee) <= ONE
@@ -294,6 +298,7 @@ package keeper
 
 //@ func msgServer.CancelStream(goCtx, msg) (resp, err)
 //@   props C10 C11 C12 C13
+//@   nopanic
 //@   requires STR_WF(str_store) && STR_RATE(str_store) && STR_TIME(str_store, UnixNs(blockTime(goCtx))) && strParamsSet(str_store) && BANK_OK(bank_bal)
 //@   requires STR_ESCROW(str_store, bank_bal, bytesval(modAddr("stream"))) && STR_NOESC(str_store, bytesval(modAddr("stream")))
 //@   requires !isnil(strParams(str_store).ValidatorFee) && 0 <= dval(strParams(str_store).ValidatorFee) && dval(strParams(str_store).ValidatorFee) <= ONE
